@@ -2,6 +2,7 @@
 # Executed by bin/props.py with PROPS, FAMILIES, TRUSTED_BASE in scope.
 
 FAMILIES["callbacks"] = {"timeout_quick": 300, "timeout_thorough": 3000}
+FAMILIES["session"] = {"timeout_quick": 300, "timeout_thorough": 3000}
 
 PROPS["C13"] = {
     "families": ["callbacks"],
@@ -36,4 +37,12 @@ PROPS["C13"] = {
         "callbacks do not subscribe or unsubscribe from inside their own dispatch (self-deadlock, outside the property)",
         "absence of data races is left to the race detector and is not established by this check",
     ],
+}
+
+PROPS["C16"] = {
+    "families": ["session"],
+    "level_text": "(being written)",
+    "level_note": "(being written)",
+    "rule": "",
+    "assumptions": [],
 }
